@@ -862,6 +862,10 @@ Error ARMRAPass::emit_swap(RAWorkReg* a_reg, uint32_t a_phys_id, RAWorkReg* b_re
 }
 
 Error ARMRAPass::emit_load(RAWorkReg* w_reg, uint32_t dst_phys_id) noexcept {
+  if (ASMJIT_UNLIKELY(!get_or_create_stack_slot(w_reg))) {
+    return make_error(Error::kOutOfMemory);
+  }
+
   Reg dst_reg(w_reg->signature(), dst_phys_id);
   BaseMem src_mem(work_reg_as_mem(w_reg));
 
@@ -879,6 +883,10 @@ Error ARMRAPass::emit_load(RAWorkReg* w_reg, uint32_t dst_phys_id) noexcept {
 }
 
 Error ARMRAPass::emit_save(RAWorkReg* w_reg, uint32_t src_phys_id) noexcept {
+  if (ASMJIT_UNLIKELY(!get_or_create_stack_slot(w_reg))) {
+    return make_error(Error::kOutOfMemory);
+  }
+
   BaseMem dst_mem(work_reg_as_mem(w_reg));
   Reg src_reg(w_reg->signature(), src_phys_id);
 
